@@ -360,19 +360,35 @@ def qwrite (e : Env) (bs : List Byte) (st : Rx) : Except Nat Rx :=
     | some l => if st.qbuf.length + bs.length > l then .error e.werr else .ok { st with qbuf := st.qbuf ++ bs }
     | none => .ok { st with qbuf := st.qbuf ++ bs }
 
-def qwrites (e : Env) : List (List Byte) → Rx → Except Nat Rx
+/-- one `WRITE` per block, in order, stopping at the first failure -/
+def qwritesSeq (e : Env) : List (List Byte) → Rx → Except Nat Rx
   | [], st => .ok st
   | w :: ws, st => match qwrite e w st with
     | .error n => .error n
-    | .ok st' => qwrites e ws st'
+    | .ok st' => qwritesSeq e ws st'
+
+/-- `qwritesSeq`, with the case "the pipe takes everything" computed in one step (the queue buffer is a
+list: appending block by block is quadratic). `Lemmas.Bdat.qwrites_eq_seq` proves the two equal. -/
+def qwrites (e : Env) (ws : List (List Byte)) (st : Rx) : Except Nat Rx :=
+  match e.wlim with
+  | none =>
+    if ws = [] then .ok st
+    else if st.qfd then .ok { st with qbuf := st.qbuf ++ ws.flatten } else .error EBADF
+  | some _ => qwritesSeq e ws st
 
 def freedata (st : Rx) : Rx := { st.ev .freed with goodrcpt := 0 }
 def queueReset (st : Rx) : Rx := { st.ev .qreset with qfd := false, qhdr := false }
 
+/-- `memchr(s, c, n)`: index of the first `c` among the first `n` bytes -/
+def memchrB (c : Byte) : List Byte → Nat → Option Nat
+  | [], _ => none
+  | _ :: _, 0 => none
+  | x :: xs, n + 1 => if x = c then some 0 else (memchrB c xs n).map (· + 1)
+
 /-- `memchr(d + start, '\r', n)` on the data `d = inbuf[0 .. chunk)` followed by the NUL sentinel
 `inbuf[chunk]`; a window reaching behind the sentinel is an out-of-bounds read. -/
 def memchrCR (d : List Byte) (start n : Nat) : Except Fault (Option Nat) :=
-  if start + n ≤ d.length + 1 then .ok ((memchr CR ((d.drop start).take n)).map (· + start))
+  if start + n ≤ d.length + 1 then .ok ((memchrB CR (d.drop start) n).map (· + start))
   else .error (.oobRead (start + n))
 
 /-- byte `i` of the buffer with its sentinel -/
